@@ -189,4 +189,105 @@ theorem C02_retokenize_basic (s : Word) : ∀ t ∈ tokenize cc s, tokenize cc t
   show List.map (basicToken cc) (tokenizeWords cc w) = [basicToken cc w]
   rw [C02_retokenize_token cc s w hw]; rfl
 
+/-! ### maximal runs: word tokens and separator tokens strictly alternate -/
+
+/-- `alternates b l`: the tokens of `l` are alternately word tokens and not, starting with kind `b` -/
+def alternates : Bool → List Word → Bool
+  | _, [] => true
+  | b, t :: ts => (isWordTok cc t == b) && alternates (!b) ts
+
+private theorem sep_not_word (t : Word) (h : isSepTok cc t = true) : isWordTok cc t = false := by
+  cases t with
+  | nil => rfl
+  | cons c cs =>
+    unfold isSepTok at h
+    rw [Bool.and_eq_true, List.all_cons, Bool.and_eq_true] at h
+    have hc : cc.isAlphanumeric c = false := by
+      cases ha : cc.isAlphanumeric c with
+      | false => rfl
+      | true => rw [ha] at h; exact absurd h.2.1 (by simp)
+    simp [isWordTok, hc]
+
+theorem aux_alt : ∀ (s : Word) (b : Bool) (cur : Word), CurOk cc b cur →
+    alternates cc b (tokenizeAux cc (some b) cur s) = true
+  | [], b, cur, hcur => by
+    rw [aux_nil]
+    by_cases hc : cur.isEmpty = true
+    · rw [if_pos hc]; rfl
+    · rw [if_neg hc]
+      cases b with
+      | true =>
+        have : isWordTok cc cur.reverse = true := by simpa [CurOk] using hcur
+        simp [alternates, this]
+      | false =>
+        have : isSepTok cc cur = true := by simpa [CurOk] using hcur
+        simp [alternates, sep_not_word cc _ (sepTok_reverse cc cur this)]
+  | c :: cs, true, cur, hcur => by
+    rw [aux_true]
+    have hcur' : isWordTok cc cur.reverse = true := by simpa [CurOk] using hcur
+    by_cases hw : isWordChar cc c = true
+    · rw [if_pos hw]
+      refine aux_alt cs true (c :: cur) ?_
+      simp only [CurOk, if_true, List.reverse_cons]
+      exact wordTok_snoc cc _ c hcur' hw
+    · rw [if_neg hw]
+      have hc : cc.isAlphanumeric c = false := by
+        cases ha : cc.isAlphanumeric c with
+        | false => rfl
+        | true => exact absurd (by unfold isWordChar; rw [ha]; rfl) hw
+      have ih := aux_alt cs false [c] (by simp [CurOk, isSepTok, hc])
+      simp [alternates, hcur', ih]
+  | c :: cs, false, cur, hcur => by
+    rw [aux_false]
+    have hcur' : isSepTok cc cur = true := by simpa [CurOk] using hcur
+    by_cases hw : cc.isAlphanumeric c = true
+    · rw [if_pos hw]
+      have ih := aux_alt cs true [c] (by simp [CurOk, isWordTok, hw])
+      simp [alternates, sep_not_word cc _ (sepTok_reverse cc cur hcur'), ih]
+    · rw [if_neg hw]
+      refine aux_alt cs false (c :: cur) ?_
+      unfold isSepTok at hcur'
+      rw [Bool.and_eq_true] at hcur'
+      have : cc.isAlphanumeric c = false := by
+        cases ha : cc.isAlphanumeric c with
+        | false => rfl
+        | true => exact absurd ha hw
+      simp [CurOk, isSepTok, this, hcur'.2]
+
+/-- **runs are maximal**: in the tokens of any text, word tokens and separator tokens strictly alternate,
+the first token being a word token iff the text starts with an alphanumeric character — two adjacent
+tokens are never of the same kind, so no run is ever cut in two -/
+theorem C02_tokens_alternate (c : Char) (cs : Word) :
+    alternates cc (cc.isAlphanumeric c) (tokenizeWords cc (c :: cs)) = true := by
+  rw [words_cons]
+  apply aux_alt
+  cases ha : cc.isAlphanumeric c with
+  | false => simp [CurOk, isSepTok, ha]
+  | true => simp [CurOk, isWordTok, ha]
+
+theorem C02_tokens_alternate' (s : Word) : ∃ b, alternates cc b (tokenizeWords cc s) = true := by
+  cases s with
+  | nil => exact ⟨true, by unfold tokenizeWords; rw [aux_nil]; rfl⟩
+  | cons c cs => exact ⟨_, C02_tokens_alternate cc c cs⟩
+
+/-- hence adjacent tokens differ in kind -/
+theorem alternates_adjacent : ∀ (b : Bool) (l : List Word), alternates cc b l = true →
+    ∀ (i : Nat) (h : i + 1 < l.length), isWordTok cc (l[i]'(by omega)) ≠ isWordTok cc l[i + 1]
+  | _, [], _, i, h => by simp at h
+  | _, [_], _, i, h => by simp at h
+  | b, t :: u :: l, hl, 0, _ => by
+    simp only [alternates, Bool.and_eq_true, beq_iff_eq] at hl
+    simp only [List.getElem_cons_zero, List.getElem_cons_succ]
+    rw [hl.1, hl.2.1]; cases b <;> simp
+  | b, t :: u :: l, hl, i + 1, h => by
+    simp only [alternates, Bool.and_eq_true] at hl
+    have := alternates_adjacent (!b) (u :: l) (by simp only [alternates, Bool.and_eq_true]; exact hl.2) i
+      (by simpa using h)
+    simpa using this
+
+theorem C02_adjacent_tokens_differ (s : Word) (i : Nat) (h : i + 1 < (tokenizeWords cc s).length) :
+    isWordTok cc ((tokenizeWords cc s)[i]'(by omega)) ≠ isWordTok cc (tokenizeWords cc s)[i + 1] := by
+  obtain ⟨b, hb⟩ := C02_tokens_alternate' cc s
+  exact alternates_adjacent cc b _ hb i h
+
 end T2N.C02.Canon
